@@ -206,86 +206,98 @@ func runC0405(cfg *config, res *monitor.Result) {
 				}
 				selfChecked = true
 			}
-			evals++
 			nonTrivial := len(bridge.SortedFieldNumbers(c.Msg.ProtoReflect())) > 0
-			if isC04 {
-				key, what := c04Check(t, c.Msg)
-				if key == "harness" {
-					res.Inconc(what)
-					continue
+			// second pass: the same contents held in the "empty but allocated" Go representation
+			for pass := 0; pass < 2; pass++ {
+				emptyNonNil = pass == 1
+				repTag := ""
+				if emptyNonNil {
+					if c.Class == "random" && ci%4 != 0 {
+						break
+					}
+					repTag = "empty-nonnil:"
 				}
-				if key != "" {
-					budgetKey := sigFlav(t) + "/" + key + "/" + shapesKey(c.Msg)
-					if shrinkBudget[budgetKey] >= 1 {
-						res.Violate(shrinkSig[budgetKey], "", nil)
+				evals++
+				if isC04 {
+					key, what := c04Check(t, c.Msg)
+					if key == "harness" {
+						res.Inconc(what)
 						continue
 					}
-					shrinkBudget[budgetKey]++
-					min := shrink(c.Msg, key, func(m *dynamicpb.Message) string { k, _ := c04Check(t, m); return k })
-					_, what2 := c04Check(t, min)
-					if what2 != "" {
-						what = what2
-					}
-					sig := fmt.Sprintf("C04:%s:%s:%s", sigFlav(t), key, shapesKey(min))
-					shrinkSig[budgetKey] = sig
-					res.Violate(sig, fmt.Sprintf("%s (%s): %s", t.md.FullName(), t.pkg.GoPkg, what), witness(t, min, c))
-				}
-			} else {
-				items, fail, what := c05Check(t, c.Msg)
-				switch fail {
-				case "":
-				case "harness":
-					res.Inconc(what)
-				case "diff":
-					seen := map[string]bool{}
-					for _, it := range items {
-						k := it.String()
-						if it.InWKT && t.pkg.Flavour == "gogo" {
-							continue // decoded/encoded by gogo's own code for its well-known types
-						}
-						if seen[k] {
-							continue
-						}
-						seen[k] = true
-						budgetKey := sigFlav(t) + "/" + k
-						if shrinkBudget[budgetKey] >= 2 {
+					if key != "" {
+						budgetKey := sigFlav(t) + "/" + repTag + key + "/" + shapesKey(c.Msg)
+						if shrinkBudget[budgetKey] >= 1 {
 							res.Violate(shrinkSig[budgetKey], "", nil)
 							continue
 						}
 						shrinkBudget[budgetKey]++
-						min := shrink(c.Msg, k, func(m *dynamicpb.Message) string {
-							its, _, _ := c05Check(t, m)
-							for _, x := range its {
-								if x.String() == k {
-									return k
-								}
-							}
-							return ""
-						})
-						sig := fmt.Sprintf("C05:%s:%s", sigFlav(t), k)
-						if ms := shapesKey(min); ms != it.Shape && it.Kind != "phantom" {
-							// the differing field alone does not explain it: keep the co-populated shapes in the signature
-							sig += ":with:" + ms
+						min := shrink(c.Msg, key, func(m *dynamicpb.Message) string { k, _ := c04Check(t, m); return k })
+						_, what2 := c04Check(t, min)
+						if what2 != "" {
+							what = what2
 						}
+						sig := fmt.Sprintf("C04:%s:%s%s:%s", sigFlav(t), repTag, key, shapesKey(min))
 						shrinkSig[budgetKey] = sig
-						w := witness(t, min, c)
-						w["diff_path"] = it.Path
-						w["diff_note"] = it.Note
-						res.Violate(sig, fmt.Sprintf("%s (%s): reference parse of Marshal output: field %s %s %s", t.md.FullName(), t.pkg.GoPkg, it.Path, it.Kind, it.Note), w)
+						res.Violate(sig, fmt.Sprintf("%s (%s): %s", t.md.FullName(), t.pkg.GoPkg, what), witness(t, min, c))
 					}
-				default:
-					budgetKey := sigFlav(t) + "/" + fail + "/" + shapesKey(c.Msg)
-					if shrinkBudget[budgetKey] >= 1 {
-						res.Violate(shrinkSig[budgetKey], "", nil)
-						continue
+				} else {
+					items, fail, what := c05Check(t, c.Msg)
+					switch fail {
+					case "":
+					case "harness":
+						res.Inconc(what)
+					case "diff":
+						seen := map[string]bool{}
+						for _, it := range items {
+							k := it.String()
+							if it.InWKT && t.pkg.Flavour == "gogo" {
+								continue // decoded/encoded by gogo's own code for its well-known types
+							}
+							if seen[k] {
+								continue
+							}
+							seen[k] = true
+							budgetKey := sigFlav(t) + "/" + repTag + k
+							if shrinkBudget[budgetKey] >= 2 {
+								res.Violate(shrinkSig[budgetKey], "", nil)
+								continue
+							}
+							shrinkBudget[budgetKey]++
+							min := shrink(c.Msg, k, func(m *dynamicpb.Message) string {
+								its, _, _ := c05Check(t, m)
+								for _, x := range its {
+									if x.String() == k {
+										return k
+									}
+								}
+								return ""
+							})
+							sig := fmt.Sprintf("C05:%s:%s%s", sigFlav(t), repTag, k)
+							if ms := shapesKey(min); ms != it.Shape && it.Kind != "phantom" {
+								// the differing field alone does not explain it: keep the co-populated shapes in the signature
+								sig += ":with:" + ms
+							}
+							shrinkSig[budgetKey] = sig
+							w := witness(t, min, c)
+							w["diff_path"] = it.Path
+							w["diff_note"] = it.Note
+							res.Violate(sig, fmt.Sprintf("%s (%s): reference parse of Marshal output: field %s %s %s", t.md.FullName(), t.pkg.GoPkg, it.Path, it.Kind, it.Note), w)
+						}
+					default:
+						budgetKey := sigFlav(t) + "/" + repTag + fail + "/" + shapesKey(c.Msg)
+						if shrinkBudget[budgetKey] >= 1 {
+							res.Violate(shrinkSig[budgetKey], "", nil)
+							continue
+						}
+						shrinkBudget[budgetKey]++
+						min := shrink(c.Msg, fail, func(m *dynamicpb.Message) string { _, f, _ := c05Check(t, m); return f })
+						sig := fmt.Sprintf("C05:%s:%s%s:%s", sigFlav(t), repTag, fail, shapesKey(min))
+						shrinkSig[budgetKey] = sig
+						res.Violate(sig, fmt.Sprintf("%s (%s): %s", t.md.FullName(), t.pkg.GoPkg, what), witness(t, min, c))
 					}
-					shrinkBudget[budgetKey]++
-					min := shrink(c.Msg, fail, func(m *dynamicpb.Message) string { _, f, _ := c05Check(t, m); return f })
-					sig := fmt.Sprintf("C05:%s:%s:%s", sigFlav(t), fail, shapesKey(min))
-					shrinkSig[budgetKey] = sig
-					res.Violate(sig, fmt.Sprintf("%s (%s): %s", t.md.FullName(), t.pkg.GoPkg, what), witness(t, min, c))
 				}
 			}
+			emptyNonNil = false
 			if nonTrivial {
 				cls := c.Class
 				if c.Field != "" {
